@@ -121,6 +121,9 @@ func (p *Program) FindFunc(pkgPath, name string) *ssa.Function {
 			}
 		}
 	}
+	if sp := p.Prog.ImportedPackage(pkgPath); sp != nil {
+		return sp.Func(name)
+	}
 	return nil
 }
 
